@@ -21,6 +21,13 @@ class SSlice(Sym):
         return f"SSlice({self.start!r},{self.stop!r},{self.step!r})"
 
 
+def _sign_pos(step):
+    """True/False: is step > 0 (forks once when symbolic; natively a plain comparison)."""
+    if isinstance(step, int):
+        return step > 0
+    return bool(step > 0)
+
+
 def slice_indices(slc, n):
     """CPython's PySlice_AdjustIndices (via slice.indices): dual use (SSlice or builtin slice)."""
     st = cur() if V._current else None
@@ -33,55 +40,39 @@ def slice_indices(slc, n):
         st.partial(V._cmp("!=", step, 0) if V.is_sym(step) else step != 0, ValueError, "slice step cannot be zero")
     elif step == 0:
         raise ValueError("slice step cannot be zero")
-    negstep = step < 0
-    lower = ite(negstep, -1, 0)
-    upper = ite(negstep, n - 1, n)
+    negstep = not _sign_pos(step)
+    lower = -1 if negstep else 0
+    upper = n - 1 if negstep else n
 
     def clamp(x, default):
         if x is None:
             return default
         return ite(x < 0, imax(x + n, lower), imin(x, upper))
 
-    start = clamp(start, ite(negstep, upper, lower))
-    stop = clamp(stop, ite(negstep, lower, upper))
+    start = clamp(start, upper if negstep else lower)
+    stop = clamp(stop, lower if negstep else upper)
     return start, stop, step
 
 
+def _sign_pos(step):
+    """True/False: is step > 0 (forks once when symbolic; natively a plain comparison)."""
+    if isinstance(step, int):
+        return step > 0
+    return bool(step > 0)
+
+
 def range_len(start, stop, step):
-    """len(range(start, stop, step)), step != 0 (dual use)."""
-    pos = imax(0, (stop - start + step - 1) // step) if _known_pos(step) else None
-    if pos is not None:
-        return pos
-    if _known_neg(step):
-        return imax(0, (start - stop - step - 1) // (-step))
-    return ite(
-        step > 0,
-        imax(0, (stop - start + step - 1) // ite(step > 0, step, 1)),
-        imax(0, (start - stop - step - 1) // ite(step > 0, 1, -step)),
-    )
-
-
-def _known_pos(x):
-    return isinstance(x, int) and x > 0
-
-
-def _known_neg(x):
-    return isinstance(x, int) and x < 0
+    """len(range(start, stop, step)), step != 0 (dual use). Forks on the sign of a symbolic step."""
+    if _sign_pos(step):
+        return imax(0, (stop - start + step - 1) // step)
+    return imax(0, (start - stop - step - 1) // (-step))
 
 
 def in_range(x, start, stop, step):
     """x in range(start, stop, step) (dual use)."""
-    if _known_pos(step):
+    if _sign_pos(step):
         return both(start <= x, x < stop, (x - start) % step == 0)
-    if _known_neg(step):
-        return both(stop < x, x <= start, (start - x) % (-step) == 0)
-    sp = ite(step > 0, step, 1)
-    sn = ite(step > 0, 1, -step)
-    return ite(
-        step > 0,
-        both(start <= x, x < stop, (x - start) % sp == 0),
-        both(stop < x, x <= start, (start - x) % sn == 0),
-    )
+    return both(stop < x, x <= start, (start - x) % (-step) == 0)
 
 
 class SRange(Sym):
@@ -403,12 +394,18 @@ class SObj(Sym):
     def snapshot(self):
         o = SObj(self.cls, {k: (v.snapshot() if isinstance(v, (LRef, DRef)) else v) for k, v in self.fields.items()}, self.base_list)
         o.shape = self.shape
+        o.__dict__["_trace"] = list(self.__dict__.get("_trace", []))
         return o
 
     __hash__ = object.__hash__
 
     def __eq__(self, o):
         return self is o
+
+    @property
+    def trace(self):
+        """Ghost call trace: events (name, *args) logged by contracts with `log_event` / `effects`."""
+        return self.__dict__.setdefault("_trace", [])
 
     def __getattr__(self, name):
         # contract-side convenience: s.fieldname
